@@ -97,6 +97,8 @@ def _run(rec, sim, case, M, L, binary, decl, path, srv, V):
         # an oversize POST runs into known finding K1 (C15's subject)
         pending = sim.poll(h) if path == 'post' else None
         sim.quiesce()
+        if srv == 'H' and decl in ('none', 'lt'):
+            return      # not expressible as one HTTP/1.1 request
         if declared is None:
             # no Content-Length at all (e.g. a chunked upload): nothing is
             # "declared larger", but nothing oversize may reach the app and no
@@ -137,7 +139,7 @@ def _run(rec, sim, case, M, L, binary, decl, path, srv, V):
         # reader bound
         rec.count('reader_bound')
         bound = min(declared, M)
-        if srv == 'T':
+        if srv in ('T', 'H'):
             asked = sum(r if (r is not None and r >= 0) else 10 ** 12
                         for r in t.reads)
             if asked > bound:
@@ -248,7 +250,8 @@ def _run(rec, sim, case, M, L, binary, decl, path, srv, V):
                                           gen.expected_roundtrip(want)):
             V('within-limit-frame-lost', 'frame of %d (limit %d) produced '
               'events %r; session live=%r' % (
-                  L, M, [repr(m['data'])[:50] for m in sim.events[n0:]],
+                  L, M, [(m['ev'], repr(m.get('data', m.get('reason')))[:50])
+                         for m in sim.events[n0:]],
                   h.sid in sim.live_sids()))
 
 
@@ -297,11 +300,16 @@ def all_cases(tier, seed):
             if L > 3 * 10 ** 6:
                 continue
             for binary in (False, True):
-                for srv in ('T', 'A'):
+                for srv in ('T', 'A', 'H'):
                     for path in ('post', 'post-mid-upgrade', 'ws-first',
                                  'ws-steady', 'ws-probe', 'ws-upgrade'):
                         decls = ['eq', 'lt', 'gt', 'none'] if \
                             path.startswith('post') else ['eq']
+                        if srv == 'H':
+                            # (HTTP/1.1 has no body without a length, and
+                            # bytes beyond the declared length are the next
+                            # pipelined request, not part of this body)
+                            decls = [d for d in decls if d in ('eq', 'gt')]
                         for d in decls:
                             cases.append({'kind': 'size', 'M': M, 'L': L,
                                           'binary': binary, 'decl': d,
@@ -316,11 +324,11 @@ def all_cases(tier, seed):
                           'decl': rng.choice(['eq', 'lt', 'gt', 'none']),
                           'path': rng.choice(['post', 'post-mid-upgrade',
                                               'ws-first', 'ws-steady']),
-                          'srv': rng.choice('TA'),
+                          'srv': rng.choice('TAH'),
                           'chunks': rng.choice([1, 2, 5])})
     for k in range(0, 19):
         for limit in (1, 16):
-            for srv in ('T', 'A'):
+            for srv in ('T', 'A', 'H'):
                 for form in (None, 'quote', 'plus'):
                     cases.append({'kind': 'count', 'k': k, 'limit': limit,
                                   'srv': srv, 'form': form})
